@@ -121,6 +121,11 @@ func nativeReplay(path string) (bool, string) {
 	switch rf.Kind {
 	case "assert":
 		want := "VERIF-ASSERT-FAIL: " + assertMsg(rf.Site)
+		if anyAssert(rf.Property, rf.PkgRel, rf.Harness) {
+			// time-gated harnesses: natively the schedule of background passes is only approximated, so another
+			// clause of the same oracle may fire first; any assertion failure of this harness on these inputs counts
+			want = "VERIF-ASSERT-FAIL: "
+		}
 		return failed && strings.Contains(out, want), short
 	case "panic":
 		if !failed || strings.Contains(out, "VERIF-ASSERT-FAIL") {
@@ -138,4 +143,25 @@ func assertMsg(site string) string {
 		return site[i+len("|assert:"):]
 	}
 	return site
+}
+
+// anyAssert reports whether the harness carries the directive //verif:replay anyassert.
+func anyAssert(prop, pkgRel, harness string) bool {
+	for _, f := range harnessFilesFor(prop)[pkgRel] {
+		b, err := os.ReadFile(f)
+		if err != nil {
+			continue
+		}
+		src := string(b)
+		i := strings.Index(src, "func "+harness+"(")
+		if i < 0 {
+			continue
+		}
+		j := strings.LastIndex(src[:i], "\n\n")
+		if j < 0 {
+			j = 0
+		}
+		return strings.Contains(src[j:i], "//verif:replay anyassert")
+	}
+	return false
 }
